@@ -11,8 +11,8 @@ LEVEL = 'exploration'
 
 def sizes(ctx):
     if ctx.tier == 'quick':
-        return dict(sched_inputs=120, random_programs=40, inputs=10)
-    return dict(sched_inputs=600, random_programs=300, inputs=40)
+        return dict(sched_inputs=400, random_programs=40, inputs=10)
+    return dict(sched_inputs=2400, random_programs=300, inputs=40)
 
 
 def tagged_in_recursion(prog, tagged):
